@@ -95,8 +95,9 @@ def sepLoop (index : Int) : Int → Bool → List Char → List Char
 /-- `addThousandsSep`: `strings.Index(e, ".")`, or `len(e)` when there is no point -/
 def addThousandsSep (e : List Char) : List Char := sepLoop (e.idxOf '.') 0 false e
 
-/-- the number actually formatted: `d.Div(1000)` (16 digits, half away from zero) with `--thousands` -/
-def scaled (r : Renderer) (d : Rat) : Rat := if r.thousands then div16 d 1000 else d
+/-- the number actually formatted: `d.Shift(-3)` with `--thousands` — the exact quotient by 1000 (since the repair
+`93a24c8`; before it `d.Div(1000)`, rounded to 16 places, see `C17_no_double_rounding`) -/
+def scaled (r : Renderer) (d : Rat) : Rat := if r.thousands then d / 1000 else d
 
 /-- `TextRenderer.numToString` -/
 def numToString (r : Renderer) (d : Rat) : List Char :=
